@@ -1140,7 +1140,11 @@ class xfunc_quantile(xfunc):
             left = (right - 1).clip(min=0)
             xdiff = numpy.diff(a, append=[0], axis=0)
             with numpy.errstate(divide="ignore", invalid="ignore"):
-                frac = (prob - cs[left]).clip(min=0) / w[right.clip(max=len(w) - 1)]
+                excess = (prob - cs[left]).clip(min=0)
+                frac = excess / w[right.clip(max=len(w) - 1)]
+                # Nothing to interpolate when the target falls exactly on a[left],
+                # even if the next weight is 0 (0 / 0).
+                frac = numpy.where(excess == 0, 0.0, frac)
                 return a[left] + frac * xdiff[left]
 
         return numpy.apply_along_axis(weighted_quantile_1d, 0, arr)
